@@ -37,6 +37,9 @@ def select_table(ob, b, kind):
     # the local holding the effective timeout: arg0 of Option::map(_, tokio::time::sleep)
     maps = [c for c in b.calls_to("Option::map") if len(c.args) == 2 and o.of_operand(c.args[1])[0] == "fnptr"
             and name_matches(o.of_operand(c.args[1])[1], "tokio::time::sleep::sleep")]
+    if not maps and not b.calls_to("tokio::time::sleep::sleep"):
+        ob.refute_and_stop(f"{kind}/timer-armed-at-dispatch", f"{kind} Timeout::call does not create the deadline timer (tokio::time::sleep of the effective timeout): the deadline must "
+                           "count from the moment the request is dispatched, not from some later poll", b.path)
     ob.floor(maps, 1, f"Option::map(_, tokio::time::sleep) in {kind} Timeout::call", exact=True)
     pl = op_place(maps[0].args[0])
     L = place_local(pl)
@@ -93,11 +96,27 @@ def select_table(ob, b, kind):
                 zz = strip_identity(z[1][1])
                 if zz[0] == "call" and name_matches(zz[1], "core::option::Option::zip") and len(zz[2]) == 2:
                     return who_field(zz[2][int(s[2])])
+        def ok_payload(u_):
+            u_ = strip_identity(u_)
+            return u_[0] == "field" and u_[2] == "0" and u_[1][0] == "variant" and u_[1][2] == "Ok" and strip_identity(u_[1][1])[0] == "call" \
+                and name_matches(strip_identity(u_[1][1])[1], f"{TO}::try_parse_timeout")
+        p_ = s
+        while p_[0] in ("field", "variant"):
+            if ok_payload(p_):
+                return "req"          # the Ok payload of the parse = the header's Option<Duration> (on the path where parsing succeeded)
+            p_ = strip_identity(p_[1])
         while s[0] in ("field", "variant"):
             s = strip_identity(s[1])
         if s[0] == "call" and name_matches(s[1], ("Result::unwrap_or_else", "Result::unwrap_or", "Result::ok", "Result::unwrap_or_default")) \
                 and term_has_call(s, f"{TO}::try_parse_timeout"):
             return "req"
+        if s[0] == "phi":
+            # `match try_parse_timeout(h) { Ok(v) => v, Err(e) => { trace!(..); None } }`: unwrap_or_else(|_| None) written out
+            alts_ = [strip_identity(a_) for a_ in s[1]]
+            okp = [a_ for a_ in alts_ if a_[0] == "field" and a_[2] == "0" and a_[1][0] == "variant" and a_[1][2] == "Ok" and term_has_call(a_[1][1], f"{TO}::try_parse_timeout")]
+            non = [a_ for a_ in alts_ if a_[0] == "agg" and str(a_[2]).endswith("Option::None")]
+            if len(okp) == 1 and len(okp) + len(non) == len(alts_) and non:
+                return "req"
         if term_has_call(s, f"{TO}::try_parse_timeout"):
             return "req?"
         if s[0] == "param" and s[2] == "self":
@@ -192,6 +211,11 @@ def select_table(ob, b, kind):
                 # `match header.zip(default)`: Some = both present, None = not both
                 return ["req=Some", "def=Some"] if labels == {"Some"} else ("zip=None" if labels == {"None"} else f"?discr(zip)={lab}")
             w = who_field(subj[1])
+            if w not in ("req", "def") and b.term(a)["k"] == "switch":
+                # on this path the tested Option is a constant (`Err(e) => None`): whose Option it is shows in the join of all paths
+                t0 = o.of_operand(b.term(a)["discr"])
+                if t0[0] == "discr":
+                    w = who_field(t0[1])
             if w in ("req", "def"):
                 return f"{w}={lab}"
             return f"?discr({show(subj[1])[:50]})={lab}"
@@ -272,6 +296,8 @@ def select_table(ob, b, kind):
                 pass                # the Option produced by `a.or(b)`; named when it is stored into the timeout (td=or(..))
             elif s == "zip=None":
                 not_both = True
+            elif s.startswith("[") and s.endswith("]"):
+                pass                # variant annotation of a match on the parse result (`[Ok]` / `[Err]`)
             else:
                 rest.append(s)
         key = (conds.get("req"), conds.get("def"))
@@ -362,6 +388,23 @@ def run(cx):
             # the unparsable-header closure returns None on every path
             o = Origins(b)
             uw = [c for c in b.calls_to("Result::unwrap_or_else") if term_has_call(o.of_operand(c.args[0]), f"{TO}::try_parse_timeout")]
+            if not uw:
+                # written out: `match try_parse_timeout(h) { Ok(v) => v, Err(e) => { trace!(..); None } }` - the value that joins the
+                # arms is the parsed Option on Ok and None otherwise
+                joins = []
+                for l_ in range(len(b.locals)):
+                    if len([d for d in b.defs().get(l_, []) if d[0] != "partial"]) < 2:
+                        continue
+                    t_ = strip_identity(o.of_local(l_))
+                    if t_[0] != "phi":
+                        continue
+                    alts_ = [strip_identity(a_) for a_ in t_[1]]
+                    okp = [a_ for a_ in alts_ if a_[0] == "field" and a_[2] == "0" and a_[1][0] == "variant" and a_[1][2] == "Ok" and strip_identity(a_[1][1])[0] == "call"
+                           and name_matches(strip_identity(a_[1][1])[1], f"{TO}::try_parse_timeout")]
+                    if okp:
+                        joins.append((l_, all(a_ in okp or (a_[0] == "agg" and str(a_[2]).endswith("Option::None")) for a_ in alts_) and len(alts_) > len(okp)))
+                ob.require(len(joins) >= 1 and all(j_[1] for j_ in joins), f"{kind}/parse-error-is-absent", f"{b.path}: an unparsable header is not mapped to None on every path (match form)", b.path, b.loc())
+                continue
             ob.floor(uw, 1, "unwrap_or_else on try_parse_timeout", exact=True)
             ct = o.of_operand(uw[0].args[1])
             ct = strip_identity(ct)
@@ -695,7 +738,7 @@ def run(cx):
         check_builder_setters(ob, prog, "anemo::network::Builder", {"config": ("config", "config"), "outbound_request_layer": ("outbound_request_layer", "layer")})
 
     with cx.ob("C11.7", "R-WRITERS", "one layer out: the configured request timeouts are never rewritten after the Config was built; the handler runs as part of the request future (no spawn on the request path, C08.7 re-evaluated), so dropping that future at the deadline drops the handler") as ob:
-        check_config_immutable(ob, prog, ["inbound_request_timeout_ms", "outbound_request_timeout_ms"])
+        check_config_immutable(ob, prog, ["inbound_request_timeout_ms", "outbound_request_timeout_ms"], repo=cx.repo)
         from . import c08
         sub = cx.__class__("C11", prog, cx.tier, cx.config, cx.tree, repo=cx.repo)
         c08.run(sub)
